@@ -85,6 +85,10 @@ macro_rules! roundtrip {
         let mut again = Array::<$cap>::new();
         back.compose_rdata(&mut again).unwrap();
         assert!(again.as_ref() == buf.as_ref());
+        // no embedded names: the canonical form is the wire form
+        let mut canon = Array::<$cap>::new();
+        val.compose_canonical_rdata(&mut canon).unwrap();
+        assert!(canon.as_ref() == buf.as_ref());
     }};
 }
 
@@ -103,6 +107,9 @@ macro_rules! roundtrip_inherent {
         let mut again = Array::<$cap>::new();
         back.compose_rdata(&mut again).unwrap();
         assert!(again.as_ref() == buf.as_ref());
+        let mut canon = Array::<$cap>::new();
+        val.compose_canonical_rdata(&mut canon).unwrap();
+        assert!(canon.as_ref() == buf.as_ref());
     }};
 }
 
@@ -176,4 +183,27 @@ pub fn c05_mx_srv_roundtrip_bounded() {
     srv.compose_canonical_rdata(&mut canon).unwrap();
     // RFC 6840 5.1 keeps SRV in the list of types whose names are lower-cased
     assert!(&canon.as_ref()[6..] == b"\x01a\x02bc\0");
+}
+
+
+/// character strings: the length octet is read as an unsigned octet -- every length 0..=255 on a 256-octet buffer
+/// (contents fixed, length symbolic), and short buffers are rejected
+#[kani::proof]
+#[kani::unwind(4)]
+pub fn c05_charstr_parse_every_length() {
+    let mut raw = [0x61u8; 256];
+    let l: u8 = kani::any();
+    let avail: usize = kani::any();
+    kani::assume(avail <= 256 && avail >= 1);
+    raw[0] = l;
+    let slice = &raw[..avail];
+    let mut parser = Parser::from_ref(slice);
+    let r = CharStr::parse(&mut parser);
+    kani::cover!(r.is_ok() && l >= 128);
+    kani::cover!(r.is_err());
+    assert!(r.is_ok() == (1 + l as usize <= avail));
+    if let Ok(cs) = r {
+        assert!(cs.len() == l as usize);
+        assert!(parser.pos() == 1 + l as usize);
+    }
 }
